@@ -76,15 +76,43 @@ def probe_source():
     if len(tries_integ) != 1:
         raise core.Fail("expected exactly one try around PRAGMA integrity_check (found %d)" % len(tries_integ))
 
-    def handler_classes(t):
+    busy = []
+
+    def is_busy_guard(test, name):
+        """exactly: isinstance(<name>, sqlite3.OperationalError) and "locked" in str(<name>)"""
+        if not (name and isinstance(test, pyast.BoolOp) and isinstance(test.op, pyast.And) and len(test.values) == 2):
+            return False
+        a, b = test.values
+        ok_a = (isinstance(a, pyast.Call) and isinstance(a.func, pyast.Name) and a.func.id == "isinstance"
+                and len(a.args) == 2 and not a.keywords
+                and isinstance(a.args[0], pyast.Name) and a.args[0].id == name
+                and isinstance(a.args[1], pyast.Attribute) and isinstance(a.args[1].value, pyast.Name)
+                and a.args[1].value.id == "sqlite3" and a.args[1].attr == "OperationalError")
+        ok_b = (isinstance(b, pyast.Compare) and len(b.ops) == 1 and isinstance(b.ops[0], pyast.In)
+                and isinstance(b.left, pyast.Constant) and b.left.value == "locked" and len(b.comparators) == 1
+                and isinstance(b.comparators[0], pyast.Call) and isinstance(b.comparators[0].func, pyast.Name)
+                and b.comparators[0].func.id == "str" and len(b.comparators[0].args) == 1
+                and isinstance(b.comparators[0].args[0], pyast.Name) and b.comparators[0].args[0].id == name)
+        return ok_a and ok_b
+
+    def handler_classes(t, allow_busy_reraise=False):
         out = []
         for h in t.handlers:
-            if any(isinstance(n, pyast.Raise) for st in h.body for n in pyast.walk(st)):
-                continue  # a handler that re-raises does not catch
+            raises = [n for st in h.body for n in pyast.walk(st) if isinstance(n, pyast.Raise)]
+            if raises:
+                # the one recognised shape (integrity check only): a bare `raise` as the whole body of an
+                # else-less top-level `if` guarded by the "database is locked" test = the BUSY class, which the
+                # single-process histories of C01 never produce; every other DatabaseError is still handled
+                guards = [st for st in h.body if isinstance(st, pyast.If) and is_busy_guard(st.test, h.name)
+                          and not st.orelse and len(st.body) == 1 and isinstance(st.body[0], pyast.Raise)
+                          and st.body[0].exc is None]
+                if not (allow_busy_reraise and len(raises) == 1 and len(guards) == 1 and guards[0].body[0] is raises[0]):
+                    continue  # a handler that re-raises (in any other way) does not catch
+                busy.append("OperationalError with 'locked' in its message is re-raised")
             out += _resolve(h.type)
         return out
     hl = handler_classes(tries_loads[0])
-    hi = handler_classes(tries_integ[0])
+    hi = handler_classes(tries_integ[0], allow_busy_reraise=True)
     caught = {}
     for e in EXN:
         if e == "OtherExn":
@@ -94,7 +122,8 @@ def probe_source():
             caught[e] = any(issubclass(cls, h) for h in hl)
     return {"caught": caught,
             "integrity_caught": any(issubclass(sqlite3.DatabaseError, h) for h in hi),
-            "handlers": {"pickle.loads": [h.__name__ for h in hl], "integrity_check": [h.__name__ for h in hi]}}
+            "handlers": {"pickle.loads": [h.__name__ for h in hl], "integrity_check": [h.__name__ for h in hi],
+                         "integrity_check_excluded_busy_class": busy}}
 
 
 # ---------------------------------------------------------------------------
@@ -387,6 +416,11 @@ def run(ctx):
         tab = {"caught": {e_: False for e_ in EXN}, "integrity_caught": False, "handlers": {}}
         ctx.oblige("tie:T7-except-clauses-recognised", False, str(e))
     ctx.notes["except_tables"] = tab
+    if tab["handlers"].get("integrity_check_excluded_busy_class"):
+        ctx.assumptions.append("the integrity-check handler re-raises sqlite3.OperationalError whose message contains "
+                               "'locked' (database busy, C02's concern): not a fault of C01's list and never produced by "
+                               "its single-process histories (any exception escaping parse() is still a violation for "
+                               "the oracle); every other DatabaseError is routed to remove + recreate")
 
     # ---- cases ---------------------------------------------------------------------------------
     rng = ctx.rng
